@@ -225,6 +225,14 @@ def step (st : St) (line : String) : St × String :=
     match splitArrow rest with
     | some (ins, impl) => (st, (stepHost ins impl).getD "bad-op")
     | none => (st, "bad-op")
+  | "C19.steer" :: rest =>
+    -- the harness slept until the clock had the wanted low bytes; the time slept is read off its answer
+    match splitArrow rest with
+    | some ([_, _], impl) =>
+      match ((impl.drop 1).headD "x").toNat? with
+      | some dd => if st.ok then ({ st with now := st.now + dd }, verdict (impl.headD "" == "ok") none "ok") else (st, "bad-op")
+      | none => (st, "bad-op")
+    | _ => (st, "bad-op")
   | "C19.sleep" :: rest =>
     match splitArrow rest with
     | some ([d], impl) =>
